@@ -92,7 +92,7 @@ func seqJobList(prop, tier string) []*SeqJob {
 	case "C01":
 		return append(c01SeqJobs(tier), metricsPerScopeSweep("C01", "size-sweep-counters-and-histograms-per-scope", tier, map[string]bool{"counter": true, "histogram": true}))
 	case "C07":
-		return []*SeqJob{c07SeqJob(tier)}
+		return []*SeqJob{c07SeqJob(tier), scopesPerRegistrySweep(tier)}
 	case "C02":
 		return append(c02SeqJobs(tier), metricsPerScopeSweep("C02", "size-sweep-gauges-per-scope", tier, map[string]bool{"gauge": true}))
 	case "C03":
